@@ -75,3 +75,92 @@ def plan_seeds(tier, seed, scale, quick_n, thorough_n, per_shard, extra=None,
 
 def hist_rng(spec, i):
     return random.Random('%s/%s/%s' % (spec['seed'], spec.get('salt', ''), i))
+
+
+def plan_faulted(shards, tier, seed, scale, quick_n=48, thorough_n=1440,
+                 steps=50):
+    """append shards of histories whose writes meet injected faults"""
+    nf = int((quick_n if tier == 'quick' else thorough_n) * scale)
+    per = 6 if tier == 'quick' else 60
+    for i in range(0, nf, per):
+        shards.append({'seed': seed, 'first': i, 'count': min(per, nf - i),
+                       'tier': tier, 'hashseed': (i // per) % 3,
+                       'faulted': True, 'steps': steps, 'salt': 'faults'})
+    return shards
+
+
+def run_faulted_histories(pid, spec, res, make_gen, state_problems,
+                          kinds=('DL', 'DL', 'ERR', 'CONN')):
+    """Histories in which half of the writes run with ONE database fault
+    injected at a random SQL event (kinds: DL deadlock without rollback, ERR
+    generic error, CONN lost connection; DLR - rollback by the DBMS - only
+    where the caller asks for it, see known finding D12).  Whatever the
+    request answers, state_problems(dump) -> [(kind, detail)] must stay
+    empty."""
+    from pv import faults
+    from pv.sqlwatch import SqlWatch
+    svc = Service()
+    watch = SqlWatch(svc.app.engine)
+    try:
+        for i in range(spec['first'], spec['first'] + spec['count']):
+            rng = hist_rng(spec, i)
+            svc.fresh()
+            gen = make_gen(rng)
+            d = svc.dump()
+            for _ in range(spec['steps']):
+                req = gen.next(d)
+                inj = None
+                before = d
+                if req['method'] != 'GET' and rng.random() < 0.5:
+                    inj = faults.Injector(rng.randrange(0, 45),
+                                          rng.choice(list(kinds)), watch)
+                    snap = svc.app.snapshot(svc.app.db_path + '.prefault')
+                    watch.start(inj)
+                try:
+                    resp = svc.client.send(req)
+                finally:
+                    if inj is not None:
+                        watch.stop()
+                d = svc.dump()
+                res.count('states_checked_after_faulted_histories')
+                fired = inj is not None and inj.fired
+                if fired:
+                    res.count('faulted_requests')
+                    res.seen('fault', req['method'],
+                             req['path'].split('/')[1], inj.kind,
+                             resp.status // 100)
+                    if 200 <= resp.status < 300:
+                        res.count('faulted_requests_answered_2xx')
+                probs = state_problems(d)
+                twin = ''
+                if probs and fired:
+                    # what does the same request do without the fault?  A
+                    # request that is refused anyway writes nothing but the
+                    # records it auto-creates and removes again: a fault can
+                    # then only have hit that compensation (known finding
+                    # D24); for a request that is accepted without the fault
+                    # the residue is a new finding
+                    svc.app.restore(snap)
+                    t = svc.client.send(req, record=False)
+                    twin = '|fault-free-twin-%s' % (
+                        'accepted' if 200 <= t.status < 300 else 'refused')
+                    if all(k == 'consumer-without-allocations' and
+                           c not in before.consumers for k, c in probs):
+                        twin += '|only-auto-created-consumers'
+                for kind, detail in probs[:3]:
+                    res.violation(
+                        '%s|%s|%s|%s%s' % (
+                            pid, kind,
+                            'after-fault-' + inj.kind if fired else
+                            'faulted-history',
+                            '%s %s' % (req['method'],
+                                       req['path'].split('/')[1]), twin),
+                        '%s %s -> %d: %s %s' % (req['method'], req['path'],
+                                                resp.status, kind, detail),
+                        {'history': svc.client.history(12),
+                         'fault': [inj.k, inj.kind] if fired else None})
+                if probs:
+                    break
+            res.count('histories')
+    finally:
+        svc.close()
